@@ -45,7 +45,7 @@ const (
 	knownNamesID   = "C16-truncated-utf8-hang-css-names"
 	watchdogWall   = 10 * time.Second // in-process suspicion threshold (≥100× the normal time of a ≤64 KB input)
 	hangCPU        = 20 * time.Second // CPU time of a fresh child after which the call counts as not terminating
-	hangWall       = 240 * time.Second
+	hangWall       = 600 * time.Second
 	replayCPUQuick = 4 * time.Second // bound for replays inside TestCheck (a listed known hang must not cost 20 s per run)
 	minimiseCPU    = 3 * time.Second
 	extremeRepeat  = 500 // see extremeNesting
@@ -1108,7 +1108,39 @@ func minimiseSlow(sub string, raw []byte, box time.Duration) []byte {
 	return withBytes(sub, raw, data)
 }
 
+// Hang triage is serialised across the shards of a run (they share $TMPDIR): a defect that every shard runs into
+// would otherwise start dozens of spinning children at once and starve the confirmation runs of CPU time. Once
+// one shard has announced a hang, the others only save their suspect and leave.
+func triageLock() (unlock func(), alreadyAnnounced bool) {
+	dir := os.Getenv("TMPDIR")
+	if dir == "" {
+		dir = os.TempDir()
+	}
+	f, err := os.OpenFile(filepath.Join(dir, "c16-triage.lock"), os.O_CREATE|os.O_RDWR, 0o644)
+	if err != nil {
+		return func() {}, false
+	}
+	syscall.Flock(int(f.Fd()), syscall.LOCK_EX)
+	_, serr := os.Stat(filepath.Join(dir, "c16-hang-announced"))
+	return func() { syscall.Flock(int(f.Fd()), syscall.LOCK_UN); f.Close() }, serr == nil
+}
+
+func markHangAnnounced() {
+	dir := os.Getenv("TMPDIR")
+	if dir == "" {
+		dir = os.TempDir()
+	}
+	os.WriteFile(filepath.Join(dir, "c16-hang-announced"), []byte("1"), 0o644)
+}
+
 func triageSlow(sub string, raw []byte) slowVerdict {
+	unlock, announced := triageLock()
+	defer unlock()
+	if announced {
+		p := strings.Replace(hangReplayPath(sub, raw), "-hang-", "-suspect-", 1)
+		writeHang(p, sub, raw, "suspected hang, not confirmed: another shard of the same run had already reported a hang", false)
+		return slowVerdict{Kind: "deferred", Raw: raw, Path: p}
+	}
 	ok, note := confirmSlow(sub, raw)
 	if !ok {
 		return slowVerdict{Kind: "unconfirmed", Raw: raw, Detail: note}
@@ -1117,6 +1149,7 @@ func triageSlow(sub string, raw []byte) slowVerdict {
 	origExtreme, _ := extremeNesting(caseBytes(sub, raw))
 	if !origExtreme {
 		writeHang(path, sub, raw, "not yet minimised", true)
+		markHangAnnounced()
 	}
 	min := minimiseSlow(sub, raw, 60*time.Second)
 	if !bytes.Equal(min, raw) {
@@ -1129,6 +1162,7 @@ func triageSlow(sub string, raw []byte) slowVerdict {
 			return slowVerdict{Kind: "extreme", Raw: min, Detail: why}
 		}
 		writeHang(path, sub, min, "minimised by delta debugging in fresh processes", true)
+		markHangAnnounced()
 	} else {
 		writeHang(path, sub, min, "minimised by delta debugging in fresh processes", false)
 	}
@@ -1186,6 +1220,10 @@ func judge(sub string, c interface{}, classes []string, nontrivial bool) vdrv.Ve
 		fmt.Printf("INFRA: case neither finishes in-process nor hangs in a fresh process (%s)\n", sv.Detail)
 		H.Finish(false)
 		os.Exit(3)
+	case "deferred":
+		fmt.Printf("C16: another shard has already reported a hang; suspect saved as %s\n", sv.Path)
+		H.Finish(false)
+		os.Exit(1)
 	case "extreme":
 		saveObservation(sub, sv.Raw, sv.Detail)
 		H.Note("%s: slow input beyond the nesting bound (%s): not charged as a hang; saved under evidence/observations/C16", sub, sv.Detail)
